@@ -540,7 +540,6 @@ impl Heap {
 //@contract
     requires
       old(self).wf(),
-      old(self).sweep_index + work_unit <= usize::MAX,
       vstd::std_specs::hash::obeys_key_model::<&'static str>(),
     ensures
       final(self).wf(),                                                             // :wf_preserved
@@ -1316,6 +1315,9 @@ fn thm_every_history(heap: &mut Heap, ops: Vec<HistoryOp>, first: String)
     i += 1;
   }
 }
+
+/// vacuity guard: with every axiom group of this unit in scope, `false` must not be provable
+proof fn canary_must_fail_heap() ensures false { broadcast use group_str_keys; broadcast use group_slice_keys; }
 
 } // verus!
 fn main() {}
